@@ -162,3 +162,25 @@ Example c08_example_routing_ok :
   (snd (fst (format c (fresh c) None e 0%N [] [])) = ROk) /\
   (length (emf_docs c None e 0%N []) = 2%nat).
 Proof. vm_compute. repeat split; reflexivity. Qed.
+
+(* --- completeness for split mode: two metrics of one name written INTO THE SAME RECORD are rejected, wherever that
+   record is (`route`: the record without per-metric dimensions, or the record of a sorted dimension list) and whether or
+   not either has a usable value; the same name in two different records is one member per record and is accepted. *)
+From MV Require Import Emf.ContentSplit Emf.CompleteRouting.
+Theorem c08_duplicate_metric_in_one_record_rejected :
+  forall c s mult e1 n os u dims fl e2 os' u' dims' fl' e3 now ftab script,
+  skip_unique c = false ->
+  has_unroutable (e1 ++ IValue n (VMetric os u dims fl) :: e2) = false ->
+  route c dims = route c dims' ->
+  rejected c s mult (e1 ++ IValue n (VMetric os u dims fl) :: e2 ++ IValue n (VMetric os' u' dims' fl') :: e3) now ftab script.
+Proof. exact dup_metric_metric_same_record_rejected. Qed.
+Print Assumptions c08_duplicate_metric_in_one_record_rejected.
+
+Example c08_example_same_name_two_records_accepted :
+  let c := mk_config false false false [bs "ns"] [[]] [] None false in
+  let e := [ITimestamp 5; IConfig CSplit;
+            IValue (bs "m") (VMetric [OUnsigned 1] UNone [(bs "d", bs "a")] FNone);
+            IValue (bs "m") (VMetric [OUnsigned 2] UNone [(bs "d", bs "b")] FNone);
+            IValue (bs "m") (VMetric [OUnsigned 3] UNone [] FNone)] in
+  snd (fst (format c (fresh c) None e 0%N [] [])) = ROk.
+Proof. exact same_name_two_records_accepted. Qed.
